@@ -5,6 +5,8 @@ CONSTANTS
   NickPool <- T_Pool
   MyNicks <- T_MyNicks
   MaxSteps = 60
+  Privs <- S_Privs
+  PrivSets <- S_PrivSets
 INVARIANT TypeOK
 ACTION_CONSTRAINT Emit
 CHECK_DEADLOCK FALSE
